@@ -40,6 +40,7 @@ type Profile struct {
 	OptShapes      bool // bias towards shapes the optimizer rewrites (x*0, x+0, copies, constant branches)
 	FreeVars       bool // declare fv0:int fv1:bool fv2:str as untyped-at-runtime inputs (C03/C15)
 	RareIndexSet bool // `a[i] = v` / `$ o.f = v` statements are rare (the compiler has no case for them: the whole module falls back to the interpreter)
+	Commands   bool // `! cmd p: T --flag: T = d { }` commands, run through ExecuteCommand
 	WsCalls    bool // ws.send / ws.broadcast / ws.join ... statements: the side effects bytecode has (C03: their order must survive optimisation)
 	ReqVariants bool // body routes under PUT / PATCH / DELETE too, bodies under other content types, non-object and malformed bodies
 	ObserveAll int  // percent of routes whose last return of a route also returns every route-scope variable
@@ -58,6 +59,7 @@ type Case struct {
 	Reqs   []Request `json:"reqs"`
 	Style  Style     `json:"style"`
 	Style2 Style     `json:"style2"`
+	CmdCalls []CmdCall `json:"cmd_calls,omitempty"`
 	Events []string  `json:"events,omitempty"` // generator-side labels (scoping events etc.)
 	Diverted map[string]int `json:"diverted,omitempty"` // known-finding classes steered away from
 }
@@ -1371,6 +1373,80 @@ func (g *G) mutateStmt() *Node {
 
 // ---- functions, routes, requests -------------------------------------------
 
+// genCommand: a command with positional and --flag parameters (required, defaulted, optional)
+// and a few invocations that give some of them.
+func (g *G) genCommand(idx int) (Command, []CmdCall) {
+	c := Command{Name: fmt.Sprintf("cmd%d", idx)}
+	g.scopes, g.dead, g.csePool = nil, nil, nil
+	g.push()
+	np := g.n("cnp", 4)
+	seenOptional := false
+	for i := 0; i < np; i++ {
+		p := Param{Name: fmt.Sprintf("c%d", i), Type: g.pick("cpt", []string{"int", "int", "str", "bool"})}
+		switch {
+		case !seenOptional && g.pct("creq", 45):
+			p.Required = true
+		case g.pct("cdef", 70):
+			seenOptional = true
+			p.Default = g.lit(p.Type)
+			if p.Default.K == "int" && p.Default.I < 0 {
+				p.Default = Int(-p.Default.I)
+			}
+		default:
+			seenOptional = true
+		}
+		c.Params = append(c.Params, p)
+		c.Flags = append(c.Flags, seenOptional && g.pct("cflag", 60))
+		ty := p.Type
+		if !p.Required && p.Default == nil {
+			ty = "maybe-" + ty // not even defined when omitted: not used as a typed source
+		}
+		g.declare(p.Name, &vinfo{ty: ty, ro: true})
+	}
+	g.inFunc = c.Name
+	g.fnLocalPrefix = fmt.Sprintf("c%d", idx)
+	body := Block()
+	g.nest++
+	for i, n := 0, 1+g.n("cst", 3); i < n; i++ {
+		if s := g.stmt(); s != nil {
+			body.C = append(body.C, s)
+			if s.K == "ret" {
+				break
+			}
+		}
+	}
+	if len(body.C) == 0 || body.C[len(body.C)-1].K != "ret" {
+		body.C = append(body.C, NS("ret", "", g.expr(g.someType(), g.p.MaxDepth)))
+	}
+	g.nest--
+	g.inFunc, g.fnLocalPrefix = "", ""
+	c.Body = body
+	g.event("command")
+	var calls []CmdCall
+	for k, n := 0, 1+g.n("ccalls", 3); k < n; k++ {
+		call := CmdCall{Cmd: idx, Args: map[string]interface{}{}}
+		for _, p := range c.Params {
+			give := p.Required || g.pct("cgive", 50)
+			if p.Required && g.ill > 0 && g.pct("cmiss", g.ill) {
+				give = false
+			}
+			if !give {
+				continue
+			}
+			switch p.Type {
+			case "int":
+				call.Args[p.Name] = int64(g.n("cai", 12)) - 3
+			case "str":
+				call.Args[p.Name] = g.pick("cas", strPool[:8])
+			case "bool":
+				call.Args[p.Name] = g.n("cab", 2) == 1
+			}
+		}
+		calls = append(calls, call)
+	}
+	return c, calls
+}
+
 func (g *G) genFunc(idx int) Func { return g.genFuncSig(idx, "", nil, "") }
 
 // genFuncSig: with a name, the function gets exactly these (required) parameter types and this
@@ -1697,6 +1773,11 @@ func GenCase(rt *rapid.T, p Profile) Case {
 		for i := 0; i < nf; i++ {
 			c.Prog.Funcs = append(c.Prog.Funcs, g.genFunc(i))
 		}
+	}
+	if p.Commands && g.pct("hascmd", 35) {
+		cmd, calls := g.genCommand(0)
+		c.Prog.Cmds = append(c.Prog.Cmds, cmd)
+		c.CmdCalls = append(c.CmdCalls, calls...)
 	}
 	nr := 1 + g.n("nroutes", 2)
 	for i := 0; i < nr; i++ {
